@@ -7,6 +7,7 @@ from .prune import is_call
 
 LEVEL = 'other'
 RULES = {
+    'C06.R11': 'a node is kept without an LP (phase_inh, mirror points) only when the candidate witness passes Polytope::contains: every row within the documented 1e-8 tolerance - a wider slack keeps nodes that are infeasible by more than the tolerance (shared with C14.R1)',
     'C06.R10': 'distillation driver: every composition without pruning (compose::<false, _>) is followed, on every path to the next layer or the return, by infeasible_elimination on the same tree (the nodes of the last neuron are checked too)',
     'C06.R9': 'the path polytope handed to the LP is the conjunction of the path conditions (shared with C09.R1)',
     'C06.R8': 'the links, leaf flags and node set this property reads are what the arena mutators maintain as their effect contracts say (shared with C12.R2)',
@@ -18,7 +19,7 @@ RULES = {
     'C06.R4': 'the cached-state arms perform no mutation of the tree (a second run changes nothing)',
     'C06.R6': 'no function of the elimination (infeasible_elimination and the AffTree methods it reaches) resets a stored verdict to Indeterminate or borrows it mutably',
 }
-FLOORS = {'C06.R9': 5, 'C06.R8': 15, 'C06.R7': 8, 'C06.R1': 4, 'C06.R2': 5, 'C06.R10': 4, 'C06.R3': 1, 'C06.R4': 2, 'C06.R5': 12, 'C06.R6': 4}
+FLOORS = {'C06.R11': 3, 'C06.R9': 5, 'C06.R8': 15, 'C06.R7': 8, 'C06.R1': 4, 'C06.R2': 5, 'C06.R10': 4, 'C06.R3': 1, 'C06.R4': 2, 'C06.R5': 12, 'C06.R6': 4}
 EXPLANATION = 'Must-classify / must-remove / must-forward path rules over the traversal loop of infeasible_elimination.'
 DOES_NOT_DECIDE = 'emptiness itself (the LP answer, C10); terminal-count bounds for distilled networks'
 CACHED = {'Infeasible', 'Feasible', 'FeasibleWitness'}
@@ -153,6 +154,7 @@ def run(ctx):
     no_downgrade(ctx)
     driver_eliminates(ctx)
     # the subtree of a node is left unclassified only when the node is Infeasible (same instances as C03.R4)
+    helpers.share_from(ctx, 'c14', 'C06.R11', ['AffFuncBase::contains', 'AffFuncBase::distance'])
     helpers.share_from(ctx, 'c03', 'C06.R2', ['AffTree::infeasible_elimination#skip_subtree:'])
     b = ctx.body('C06.R1', 'AffTree::infeasible_elimination')
     if b is None:
